@@ -576,7 +576,7 @@ func (it *Interp) callbackClosure(fn *ssa.Function, st *State, instr ssa.CallIns
 				for j := 1; j < len(args); j++ {
 					args[j] = Top{}
 				}
-				tmp := &State{Regs: st.Regs, Heap: h.clone(), Defers: nil}
+				tmp := &State{Entry: st.Entry, Regs: st.Regs, Heap: h.clone(), Defers: nil}
 				it.Record(Event{Kind: "callback", Instr: instr, Fn: fn, Detail: map[string]string{"method": m.String()}})
 				for _, r := range it.invoke(fn, tmp, cbInstr{instr, m}, m, args, nil, false) {
 					add(r.heap)
